@@ -40,7 +40,9 @@ ASSUMPTIONS = ['the embedded strings, the crystal_structures list in the module 
                'the spectral-line table has two columns, K_alpha (already the documented Ka1/Ka2 average) and K_beta1; there '
                'are no separate Ka1/Ka2 columns to average',
                'Z = 0 receives its radius from a literal in the loader (the 97th radius of the quantifier); the check reads '
-               'that literal from the module source',
+               'that literal from the module source; when no such literal is found there the radius of Z = 0 is not judged',
+               'when crystal_structure.py does not spell the list as one literal slot per line, the public module list '
+               'crystal_structure.crystal_structures (position = Z) is the specification instead; the evidence notes the route',
                'higher orders j2/j4/j6 carry the documented extra factor s^2; J is evaluated with the plain expression and '
                'has no requirement at Q = 0',
                'an ion reading an element-keyed table (radius, structure, emission lines) may report its own element\'s entry '
@@ -170,27 +172,48 @@ def _build(ctx):
 
     reach = _state.get('reach')
     if reach is None:
+        for group, (route, text) in sorted(model.routes.items()):
+            ctx.note('reference reader, %s: %s route - %s' % (group, route, text))
+            ctx.count('reference.route.%s.%s' % (group, route))
+        ctx.info['reference_routes'] = {g: r[0] for g, r in model.routes.items()}
         reach = Reach()
-        reach.watch(covalent_radius.init, 'covalent_radius.init')
-        reach.watch(crystal_structure.init, 'crystal_structure.init')
-        reach.watch(xsf.init_spectral_lines, 'xsf.init_spectral_lines')
-        reach.watch(magnetic_ff.init, 'magnetic_ff.init')
-        reach.watch(cromermann._update_cmformulas, 'cromermann._update_cmformulas')
-        reach.watch(magnetic_ff.formfactor_0, 'magnetic_ff.formfactor_0')
-        reach.watch(magnetic_ff.formfactor_n, 'magnetic_ff.formfactor_n')
-        reach.watch(cromermann.CromerMannFormula.atstol, 'cromermann.atstol')
+        _state['anchors'] = set()
+        _state['loader_fn'] = {}
+        for owner, attr, label in (
+                (covalent_radius, 'init', 'covalent_radius.init'),
+                (crystal_structure, 'init', 'crystal_structure.init'),
+                (xsf, 'init_spectral_lines', 'xsf.init_spectral_lines'),
+                (magnetic_ff, 'init', 'magnetic_ff.init'),
+                (cromermann, '_update_cmformulas', 'cromermann._update_cmformulas'),     # private: optional
+                (magnetic_ff, 'formfactor_0', 'magnetic_ff.formfactor_0'),
+                (magnetic_ff, 'formfactor_n', 'magnetic_ff.formfactor_n'),
+                (getattr(cromermann, 'CromerMannFormula', None), 'atstol', 'cromermann.atstol')):
+            fn = getattr(owner, attr, None)
+            if getattr(fn, '__code__', None) is None:
+                # renamed / restructured: the counter is evidence only, its requirement is waived
+                ctx.count('anchor_missing.reach.' + label)
+                ctx.note('%s not found as a Python function (refactored source?): reach counter is evidence only, '
+                         'requirement waived; the served values are compared exhaustively anyway' % label)
+                continue
+            reach.watch(fn, label)
+            _state['anchors'].add(label)
+            _state['loader_fn'][label] = fn
         # row-level line counters are best effort: a changed source line only loses the counter
-        for func, text, label in (
-                (covalent_radius.init, 'table[Z].covalent_radius =', 'rows.covalent_radius'),
-                (crystal_structure.init, 'table[Z].crystal_structure =', 'rows.crystal_structure'),
-                (xsf.init_spectral_lines, 'el.K_beta1 =', 'rows.spectral_lines'),
-                (magnetic_ff.init, 'setattr(el.magnetic_ff[charge]', 'rows.magnetic_ff'),
-                (cromermann._update_cmformulas, '_cmformulas[cmf.symbol] =', 'rows.cromermann')):
+        for flabel, text, label in (
+                ('covalent_radius.init', 'table[Z].covalent_radius =', 'rows.covalent_radius'),
+                ('crystal_structure.init', 'table[Z].crystal_structure =', 'rows.crystal_structure'),
+                ('xsf.init_spectral_lines', 'el.K_beta1 =', 'rows.spectral_lines'),
+                ('magnetic_ff.init', 'setattr(el.magnetic_ff[charge]', 'rows.magnetic_ff'),
+                ('cromermann._update_cmformulas', '_cmformulas[cmf.symbol] =', 'rows.cromermann')):
+            func = _state['loader_fn'].get(flabel)
             try:
+                if func is None:
+                    raise LookupError(flabel)
                 reach.watch_line_matching(func, text, label)
                 _state.setdefault('row_counters', []).append(label)
             except Exception:  # noqa
-                ctx.note('row counter %s not attached (source line not found)' % label)
+                ctx.count('anchor_missing.reach.' + label)
+                ctx.note('row counter %s not attached (function or source line not found)' % label)
         reach.start()
         _state['reach'] = reach
 
@@ -203,12 +226,13 @@ def _build(ctx):
                                      'magnetic_ff.init', 'cromermann._update_cmformulas')):
             before = reach.counts[label]
             _guard('public', g, lambda g=g: _public_touch(g))
-            first[g] = reach.counts[label] - before
+            first[g] = (reach.counts[label] - before) if label in _state['anchors'] else None
             # the public group has been touched once: now (and only now) the private group is initialised
             _guard('private_fresh', g, lambda g=g: _private_init(T, g))
         tables['private_fresh'] = T
         ctx.info['public_loader_runs_at_first_touch'] = first
-        if all(n == 1 for n in first.values()):
+        # None = the loader of that group is not observable by name (private helper renamed): not judged here
+        if all(n >= 1 for n in first.values() if n is not None):
             ctx.count('reach.public_first_touch_loaded_all_five')
         # reload after every value was overwritten must restore the tabulated values
         T3 = _fresh(ctx, 'private_reload', 'reload')
@@ -247,9 +271,13 @@ def setup(ctx):
     rows = {'rows.covalent_radius': 2 * len(m.radius), 'rows.crystal_structure': 2 * len(m.structure),
             'rows.spectral_lines': 2 * len(m.lines), 'rows.magnetic_ff': 2 * m.magnetic_entries,
             'rows.cromermann': len(m.cm)}
+    # how often a correct loader executes its storing statement is not fixed by the property (rows may be stored
+    # by another statement after a refactoring): the expected counts are evidence, the requirement is "reached"
+    ctx.info['row_counter_expected'] = {label: rows[label] for label in _state.get('row_counters', [])}
     for label in _state.get('row_counters', []):
-        ctx.require('reach.' + label, rows[label],
-                    'the loader must be observed storing every row the reference reader found (public + private)')
+        ctx.require('reach.' + label, 1,
+                    'the loader must be observed storing rows of its table (public + private); the number the '
+                    'reference reader found is in row_counter_expected')
     ctx.require('reach.magnetic_ff.formfactor_0', 1, 'j0/J evaluations must go through formfactor_0')
     ctx.require('reach.magnetic_ff.formfactor_n', 1, 'j2/j4/j6 evaluations must go through formfactor_n')
     ctx.require('reach.cromermann.atstol', 1, 'f0 evaluations must go through CromerMannFormula.atstol')
@@ -395,6 +423,11 @@ def _radius(ctx, tname, el, atoms):
     entry = m.radius.get(Z)
     if Z == 0 and m.neutron_radius is not None:
         entry = ('n (loader literal)', m.neutron_radius, None)
+    elif Z == 0 and entry is None:
+        # the radius of the neutron is a literal inside the loader; the reference could not read it from the source
+        # and no public data holds it: not judged (a Cordero row for Z = 0 would be judged like any other)
+        ctx.count('skipped.radius.neutron_literal_unreadable')
+        return
     for route, q, atom in atoms:
         r = _get(atom, 'covalent_radius')
         u = _get(atom, 'covalent_radius_uncertainty')
@@ -522,7 +555,7 @@ def _magnetic(ctx, tname, el, atoms, G):
             if entry is None:
                 if ff is not None:
                     ctx.violation('%s charge %+d has no CFML entry but magnetic_ff[%d] (via %s) holds %r'
-                                  % (sym, q, q, route, sorted(vars(ff))), group='magnetic', route=route,
+                                  % (sym, q, q, route, sorted(getattr(ff, '__dict__', {}))), group='magnetic', route=route,
                                   entry=False, charge=q,
                                   looks_like=[x for jn in ORDERS for x in _like_magnetic(m, getattr(ff, jn, None))][:6])
                 continue
